@@ -1,5 +1,193 @@
 import RosuModel.Lemmas.GradualOsu
+import RosuModel.Lemmas.GradualCatch
+import RosuModel.Lemmas.GradualMania
+
+/-!
+# C14 — reported object counts and max combo account for exactly the objects of the map
+
+The four `take`-gated counting mechanisms of the one-shot paths (`inspect` with `take -= 1`,
+`max_combo < take`, the regular `ObjectCountBuilder`, lazy `.map(..).take(take)`) are proved
+equal to plain prefix sums, hence monotone in `n`, capped at the total, and partitioned by kind.
+-/
+
 namespace Rosu.Gradual
-variable {S : Type}
-theorem placeholder_c14 : True := trivial
+
+/-! ## osu!standard -/
+
+/-- The `inspect` closure with its decrementing `take` counts exactly the first `min take n`
+objects. -/
+theorem osu_counts_eq_prefix (objs : List OsuObj) (take : Nat) :
+    osuConvertCount objs take = (objs.take take).foldl OsuCounts.incr OsuCounts.zero :=
+  osuConvertCount_eq_prefix objs take
+
+def OsuCounts.le (a b : OsuCounts) : Prop :=
+  a.maxCombo ≤ b.maxCombo ∧ a.nCircles ≤ b.nCircles ∧ a.nSliders ≤ b.nSliders ∧
+  a.nLargeTicks ≤ b.nLargeTicks ∧ a.nSpinners ≤ b.nSpinners
+
+theorem osu_incr_le (c : OsuCounts) (h : OsuObj) : c.le (c.incr h) := by
+  unfold OsuCounts.incr OsuCounts.le
+  cases h.kind <;> simp <;> omega
+
+theorem osu_fold_le (l : List OsuObj) (c : OsuCounts) : c.le (l.foldl OsuCounts.incr c) := by
+  induction l generalizing c with
+  | nil => simp [OsuCounts.le]
+  | cons h t ih =>
+    have h1 := osu_incr_le c h
+    have h2 := ih (c.incr h)
+    simp only [List.foldl_cons]
+    unfold OsuCounts.le at *
+    omega
+
+/-- Circles, sliders and spinners add up to the number of objects considered. -/
+theorem osu_kinds_partition (objs : List OsuObj) (take : Nat) :
+    let c := osuConvertCount objs take
+    c.nCircles + c.nSliders + c.nSpinners = min take objs.length := by
+  intro c
+  have hc : c = (objs.take take).foldl OsuCounts.incr OsuCounts.zero := osu_counts_eq_prefix objs take
+  suffices h : ∀ (l : List OsuObj) (a : OsuCounts),
+      (l.foldl OsuCounts.incr a).nCircles + (l.foldl OsuCounts.incr a).nSliders + (l.foldl OsuCounts.incr a).nSpinners =
+        a.nCircles + a.nSliders + a.nSpinners + l.length by
+    rw [hc, h]
+    simp [OsuCounts.zero, List.length_take]
+  intro l
+  induction l with
+  | nil => intro a; simp
+  | cons h t ih =>
+    intro a
+    simp only [List.foldl_cons, List.length_cons]
+    rw [ih]
+    unfold OsuCounts.incr
+    cases h.kind <;> simp <;> omega
+
+/-- Counted amounts never decrease as `n` grows. -/
+theorem osu_counts_monotone (objs : List OsuObj) (a b : Nat) (h : a ≤ b) :
+    (osuConvertCount objs a).le (osuConvertCount objs b) := by
+  rw [osu_counts_eq_prefix, osu_counts_eq_prefix]
+  have : objs.take b = objs.take a ++ (objs.take b).drop a := by
+    have h1 : (objs.take b).take a = objs.take a := by
+      rw [List.take_take, Nat.min_eq_left h]
+    rw [← h1, List.take_append_drop]
+  rw [this, List.foldl_append]
+  exact osu_fold_le _ _
+
+/-- Any `n` at or above the total gives the same counts as not limiting at all
+(`usize::MAX`). -/
+theorem osu_counts_cap (objs : List OsuObj) (a b : Nat) (ha : objs.length ≤ a) (hb : objs.length ≤ b) :
+    osuConvertCount objs a = osuConvertCount objs b := by
+  rw [osu_counts_eq_prefix, osu_counts_eq_prefix, List.take_of_length_le ha, List.take_of_length_le hb]
+
+/-! ## osu!taiko -/
+
+def hitsIn (l : List Bool) : Nat := (l.filter id).length
+
+theorem taiko_inspect_fold (take : Nat) (l : List Bool) (mc nd : Nat) (h : mc ≤ take) :
+    (l.foldl (taikoInspectStep take) (mc, nd)).1 = min take (mc + hitsIn l) := by
+  induction l generalizing mc nd with
+  | nil => simp [hitsIn]; omega
+  | cons b t ih =>
+    simp only [List.foldl_cons]
+    have hstep : taikoInspectStep take (mc, nd) b =
+        if mc < take then (mc + (if b then 1 else 0), nd + 1) else (mc, nd) := rfl
+    rw [hstep]
+    by_cases hlt : mc < take
+    · rw [if_pos hlt]
+      cases b
+      · rw [ih _ _ (by simp; omega)]; simp [hitsIn]
+      · rw [ih _ _ (by simp; omega)]; simp [hitsIn]; omega
+    · rw [if_neg hlt, ih _ _ h]
+      have : mc = take := by omega
+      omega
+
+/-- Max combo equals the number of hits, limited by `n`. -/
+theorem taiko_combo_eq_hits (objs : List Bool) (take : Nat) :
+    (taikoCreate objs take).2.1 = min take (hitsIn objs) := by
+  have h := taiko_inspect_fold take objs 0 0 (Nat.zero_le _)
+  simp only [Nat.zero_add] at h
+  unfold taikoCreate
+  generalize objs.foldl (taikoInspectStep take) (0, 0) = r at h
+  obtain ⟨mc, nd⟩ := r
+  simp only at h
+  by_cases hl : objs.length < 2
+  · simp [hl, h]
+  · simp [hl, h]
+
+theorem taiko_combo_monotone (objs : List Bool) (a b : Nat) (h : a ≤ b) :
+    (taikoCreate objs a).2.1 ≤ (taikoCreate objs b).2.1 := by
+  rw [taiko_combo_eq_hits, taiko_combo_eq_hits]; omega
+
+theorem taiko_combo_cap (objs : List Bool) (a : Nat) (ha : hitsIn objs ≤ a) :
+    (taikoCreate objs a).2.1 = hitsIn objs := by
+  rw [taiko_combo_eq_hits]; omega
+
+/-! ## osu!catch -/
+
+/-- The regular builder with `take = n` counts exactly what the first `min n P` gradual records
+hold (tiny droplets are attributed to the following fruit/droplet in both). -/
+theorem catch_counts_eq_prefix (evs : List CatchEvent) (take : Nat)
+    (hwf : (evs.foldl catchGradualStep (⟨false, 0⟩, [])).1.tiny = 0) :
+    catchRegular evs take = catchPrefixCounts (catchGradualRecs evs) take := by
+  have h := catchBuilders_fold take evs _ _ (catchBuilders_init take)
+  have hc := h.c
+  unfold catchRegular catchGradualRecs
+  rw [hc, hwf]
+  simp [CatchCounts.addTiny]
+
+/-- Fruits plus droplets is the number of palpable objects considered. -/
+theorem catch_palpable_count (recs : List CatchRec) (k : Nat) :
+    (catchPrefixCounts recs k).fruits + (catchPrefixCounts recs k).droplets = min k recs.length := by
+  unfold catchPrefixCounts
+  suffices h : ∀ (l : List CatchRec) (a : CatchCounts),
+      (l.foldl CatchCounts.add a).fruits + (l.foldl CatchCounts.add a).droplets = a.fruits + a.droplets + l.length by
+    rw [h]; simp [CatchCounts.zero, List.length_take]
+  intro l
+  induction l with
+  | nil => intro a; simp
+  | cons r t ih =>
+    intro a
+    simp only [List.foldl_cons, List.length_cons]
+    rw [ih]
+    unfold CatchCounts.add
+    split <;> simp <;> omega
+
+/-- Every record produced by a fruit event is a fruit: fruits count circles, slider heads,
+repeats and tails — exactly the `record_fruit` calls. -/
+theorem catch_fruits_def (recs : List CatchRec) (k : Nat) :
+    (catchPrefixCounts recs k).fruits = ((recs.take k).filter (·.fruit)).length := by
+  unfold catchPrefixCounts
+  suffices h : ∀ (l : List CatchRec) (a : CatchCounts),
+      (l.foldl CatchCounts.add a).fruits = a.fruits + (l.filter (·.fruit)).length by
+    rw [h]; simp [CatchCounts.zero]
+  intro l
+  induction l with
+  | nil => intro a; simp
+  | cons r t ih =>
+    intro a
+    simp only [List.foldl_cons]
+    rw [ih]
+    unfold CatchCounts.add
+    by_cases hf : r.fruit = true <;> simp [hf] <;> omega
+
+theorem catch_counts_cap (recs : List CatchRec) (a : Nat) (ha : recs.length ≤ a) :
+    catchPrefixCounts recs a = catchPrefixCounts recs recs.length :=
+  catchPrefixCounts_ge recs a ha
+
+/-! ## osu!mania -/
+
+theorem mania_objects_holds (objs : List ManiaObj) (take : Nat) :
+    let c := (maniaOneShot (S := Unit) ⟨(), fun _ _ => ()⟩ objs take).1
+    c.nObjects = min take objs.length ∧
+    c.nHoldNotes = ((objs.take take).filter (fun o => !o.isCircle)).length ∧
+    c.maxCombo = ((objs.take take).map (·.incOne)).sum := by
+  simp [maniaOneShot]
+
+theorem mania_counts_cap (objs : List ManiaObj) (a : Nat) (ha : objs.length ≤ a) :
+    (maniaOneShot (S := Unit) ⟨(), fun _ _ => ()⟩ objs a).1 =
+      (maniaOneShot (S := Unit) ⟨(), fun _ _ => ()⟩ objs objs.length).1 := by
+  simp [maniaOneShot, List.take_of_length_le ha, Nat.min_eq_right ha]
+
+/-- Non-vacuity / sanity on a concrete mixed map. -/
+example :
+    osuConvertCount [⟨.circle, 0, 0⟩, ⟨.slider, 2, 5⟩, ⟨.spinner, 0, 0⟩] 2 = ⟨7, 1, 1, 2, 0⟩ := by
+  decide
+
 end Rosu.Gradual
